@@ -209,6 +209,7 @@ func checkProperty(p propSpec, tier string, seed int64, replay string) int {
 		only, onlyFam, tier = bun.Behaviour, bun.Family, bun.Tier
 	}
 	var reps []*FamilyReport
+	infra := ""
 	for _, fn := range p.Families {
 		if onlyFam != "" && fn != onlyFam {
 			continue
@@ -216,14 +217,24 @@ func checkProperty(p propSpec, tier string, seed int64, replay string) int {
 		fam := sessFamilies[fn]
 		r, err := runSessionFamily(env, fam, tier, seed, only)
 		if err != nil {
-			cleanup()
-			fail2("family %s: %v", fn, err)
+			infra = fmt.Sprintf("family %s: %v", fn, err)
+			break
 		}
 		if len(r.HarnessErr) > 0 {
-			cleanup()
-			fail2("family %s: harness errors: %v", fn, r.HarnessErr[0])
+			infra = fmt.Sprintf("family %s: harness errors: %v", fn, r.HarnessErr[0])
+			break
 		}
 		reps = append(reps, r)
+	}
+	if infra != "" {
+		// A family that could not be run decides nothing (exit 2) - unless the families that did run have already
+		// observed the real code violating the property: those observations stand on their own.
+		if !hasNewViolation(p, reps, known) {
+			cleanup()
+			fail2("%s", infra)
+		}
+		fmt.Printf("NOTE: %s\nNOTE: that family decided nothing; the violations below were observed in the real code by the families that ran before it\n", firstLine(infra))
+		return verdict(p, tier, seed, reps, known, time.Since(start).Seconds(), true)
 	}
 	// design level: the generator run machine (GenRun.tla) with its invariants C01 C12 C14 C16 C18, every
 	// interleaving of the map-order dump explored; a failure here is a fault of the specification (exit 2)
@@ -236,6 +247,40 @@ func checkProperty(p propSpec, tier string, seed int64, replay string) int {
 		designStates, designGen = st, gen
 	}
 	return verdict(p, tier, seed, reps, known, time.Since(start).Seconds(), replay != "")
+}
+
+// hasNewViolation: do the reports carry a violation of p that known_findings.json does not list?
+func hasNewViolation(p propSpec, reps []*FamilyReport, known knownFile) bool {
+	for _, r := range reps {
+		if len(r.CompileFail) > 0 || len(r.GenFail) > 0 {
+			return true
+		}
+	next:
+		for _, v := range r.Violations {
+			if !strings.HasPrefix(v.Clause, p.ID+".") {
+				continue
+			}
+			for _, kf := range known.Findings {
+				if kf.Property == p.ID && kf.Clause == v.Clause {
+					if re, err := regexp.Compile(kf.Sig); err == nil && re.MatchString(v.Sig) {
+						continue next
+					}
+				}
+			}
+			return true
+		}
+	}
+	return false
+}
+
+func firstLine(s string) string {
+	if i := strings.IndexByte(s, '\n'); i >= 0 {
+		s = s[:i]
+	}
+	if len(s) > 300 {
+		s = s[:300] + "..."
+	}
+	return s
 }
 
 // verdict filters the family reports down to the property, matches known findings, prints the
